@@ -35,6 +35,10 @@ class Env:
         self.procs = []
 
 
+# a failing run ends with an ordinary error code, with a signal (negative code, e.g. SIGSEGV) or with 255
+FAIL_CODES = [1, -11, 255]
+
+
 class FakePopen:
     env = None
 
@@ -54,9 +58,9 @@ class FakePopen:
         if self.done:
             return
         self.done = True
-        self.returncode = 0 if env.exit_ok else 1
-        if not env.exit_ok:
-            return
+        self.returncode = 0 if env.exit_ok else FAIL_CODES[env.perm % 3]
+        if not env.exit_ok and env.perm < 3:
+            return                      # fails before writing anything; otherwise: complete output, then the failure
         text = self._alignment_text(env)
         cmd = self.command
         out = None
@@ -270,7 +274,7 @@ def run_sequence(kind, env_tuple, ops):
                 if list(res) != list(PERMS[env.perm]):
                     return False, f"order {list(res)} != program output order {PERMS[env.perm]}"
             elif name == "get_exit_code":
-                if res != (0 if env.exit_ok else 1):
+                if res != (0 if env.exit_ok else FAIL_CODES[env.perm % 3]):
                     return False, f"exit code {res}"
             # ---- resources after every call
             if os.getcwd() != cwd0:
